@@ -1,5 +1,6 @@
 import SpecterModel.Util
 import SpecterModel.C26.Model
+import SpecterModel.C26.Conc
 /-!
 C26 line-protocol driver (stateful; `reset` starts a fresh DHT).
 
@@ -10,6 +11,14 @@ C26 line-protocol driver (stateful; `reset` starts a fresh DHT).
   unpub <tok> <id> <host> <failing slots>           => <code> - D
   rel <tok> <id> <host> <failing slots> <customDelFails 0|1> => <code> - D
   hold <tok> <0|1>                                  => ok D          a concurrent call holds / drops the client's lease
+Concurrent requests (one scenario = `creq`* `cs`* `cend`; every KV call of an in-flight request is one atomic step):
+  creq <tid> pub <tok> <id> <host> <servers> <failing slots>          => ok   request <tid> enters PublishTunnel
+  creq <tid> unpub <tok> <id> <host> <failing slots>                  => ok
+  creq <tid> rel <tok> <id> <host> <failing slots> <customDelFails>   => ok
+  cs <tid> <kv call>                                => <result> D    request <tid> executed this KV call (granted by the scheduler):
+        acquire <tok> | unlock <tok> | contains <tok> <host> | get <addr> | put <host> <slot> | del <host> <slot>
+        | premove <tok> <host> | delcustom <host>;  result: ok | conflict | yes | no | found | missing | fail
+  cend                                              => <outs> D      all requests have returned; outs = `;`-joined `<tid>:<code>:<published>`
 D = `<routes> <owns> <custom>` = the implementation's DHT after the call, each a `;`-joined sorted list (`-` if empty):
   route `h|k|tok|id|chord|tunnel|hostname`, owns `tok|h`, custom `h|tok|id`.
 servers: `-` | comma list of `n` (nil node) / `a<addr>`; failing slots: `-` | comma list of slot numbers.
@@ -18,6 +27,17 @@ Strings are from [a-z0-9:.-] (no separators).
 namespace Specter.C26
 open Specter.Util
 
+/-- a concurrent request as announced by the harness. -/
+structure CReq where
+  tid : Nat
+  op : String
+  tok : String
+  id : String
+  h : String
+  servers : List (Option String)
+  failing : List Nat
+  cf : Bool
+
 structure DSt where
   st : St
   toks : List String := []
@@ -25,6 +45,8 @@ structure DSt where
   ids : List (String × Nat) := []
   prevRoutes : List String := []
   prevOwns : List String := []
+  pool : List (Nat × Thread) := []      -- in-flight concurrent requests (model side)
+  reqs : List CReq := []                -- the same requests as the harness announced them
 
 def dinit : DSt := { st := init (fun _ => none) }
 
@@ -65,6 +87,21 @@ def faultsOf (slots : List Nat) (customFail : Bool) : Faults :=
   { failRoute := fun _ k => slots.contains k, failCustomDel := fun _ => customFail }
 
 def field (s : String) (i : Nat) : String := (s.splitOn "|").getD i ""
+def field2 (s : String) (i : Nat) : String := (s.splitOn ":").getD i ""
+
+/-- a successful publish: 1..3 distinct servers, and slot i+1 holds the caller's route to requested server i. -/
+def pubSlots (tok id h : String) (servers : List (Option String)) (failing : List Nat)
+    (dest : String → Option Dest) (routes : List String) : Option String :=
+  let req := (servers.filterMap (fun x => x)).eraseDups
+  if req.length > 3 ∨ req.length < 1 then some "publish accepted a bad server list" else
+  let bad := (List.range req.length).find? fun i =>
+    !(failing.contains (i + 1)) &&
+    match dest (req.getD i "") with
+    | some d => !(routes.contains s!"{h}|{i+1}|{tok}|{id}|{d.chord}|{d.tunnel}|{h}")
+    | none => true
+  match bad with
+  | some i => some s!"slot {i+1} does not hold the caller's route to the requested server"
+  | none => none
 
 /-- statement-level oracle on the IMPLEMENTATION's own before/after digests. -/
 def specCheck (op tok id h : String) (servers : List (Option String)) (failing : List Nat) (customFail : Bool)
@@ -82,17 +119,7 @@ def specCheck (op tok id h : String) (servers : List (Option String)) (failing :
     some "registrations of another client changed" else
   if code = "ok" ∧ !owned then some s!"{op} succeeded for a hostname not registered to the caller" else
   if !owned ∧ (routes ≠ prevRoutes ∨ owns ≠ prevOwns) then some s!"refused {op} changed the DHT" else
-  if op = "pub" ∧ code = "ok" then
-    let req := (servers.filterMap (fun x => x)).eraseDups
-    if req.length > 3 ∨ req.length < 1 then some "publish accepted a bad server list" else
-    let bad := (List.range req.length).find? fun i =>
-      !(failing.contains (i + 1)) &&
-      match dest (req.getD i "") with
-      | some d => !(routes.contains s!"{h}|{i+1}|{tok}|{id}|{d.chord}|{d.tunnel}|{h}")
-      | none => true
-    match bad with
-    | some i => some s!"slot {i+1} does not hold the caller's route to the requested server"
-    | none => none
+  if op = "pub" ∧ code = "ok" then pubSlots tok id h servers failing dest routes
   else if op = "rel" ∧ code = "ok" then
     if routes.any (fun r => field r 0 = h) then some "release left routes behind" else
     if owns.contains s!"{tok}|{h}" then some "release left the registration behind" else
@@ -114,6 +141,99 @@ def finish (d : DSt) (st' : St) (out : Out) (rhs : String) (toks : List String)
       let _ := toks
       if m ≠ s!"{code} {pub} {rts} {own} {cus}" then (d'', .diff m) else (d'', .ok)
   | _ => (d', .bad "rhs shape")
+
+/-! ## concurrent requests -/
+
+def parseCall : List String → Option KvCall
+  | ["acquire", t] => some (.acquire t)
+  | ["unlock", t] => some (.unlock t)
+  | ["contains", t, h] => some (.contains t h)
+  | ["get", a] => some (.get a)
+  | ["put", h, k] => k.toNat?.map (.put h)
+  | ["del", h, k] => k.toNat?.map (.del h)
+  | ["premove", t, h] => some (.premove t h)
+  | ["delcustom", h] => some (.delcustom h)
+  | _ => none
+
+def callStr : KvCall → String
+  | .acquire t => s!"acquire {t}" | .unlock t => s!"unlock {t}" | .contains t h => s!"contains {t} {h}"
+  | .get a => s!"get {a}" | .put h k => s!"put {h} {k}" | .del h k => s!"del {h} {k}"
+  | .premove t h => s!"premove {t} {h}" | .delcustom h => s!"delcustom {h}"
+
+def resStr : Res → String
+  | .ok => "ok" | .conflict => "conflict" | .yes => "yes" | .no => "no"
+  | .found => "found" | .missing => "missing" | .fail => "fail"
+
+def outStr (tid : Nat) (t : Thread) : String :=
+  match t.pc with
+  | .done o => s!"{tid}:{codeOf o}:{pubOf o}"
+  | _ => s!"{tid}:running:-"
+
+/-- statement-level oracle for a finished concurrent scenario, on the IMPLEMENTATION's own digests before the first
+and after the last call and on the codes it returned. Nothing registers a hostname inside a scenario. -/
+def cspec (reqs : List CReq) (dest : String → Option Dest) (prevRoutes prevOwns : List String)
+    (outs : List String) (routes owns custom : List String) : Option String :=
+  let code (q : CReq) : String := ((outs.find? (fun o => field2 o 0 = toString q.tid)).map (fun o => field2 o 1)).getD "?"
+  let owner (q : CReq) : Bool := prevOwns.contains s!"{q.tok}|{q.h}"
+  let summary := ", ".intercalate (reqs.map fun q => s!"{q.op} {q.tok} {q.h}: {code q}")
+  -- once every call has returned, every stored route names a client to whom its hostname is registered
+  match routes.find? (fun r => !(owns.contains s!"{field r 2}|{field r 0}") || field r 6 ≠ field r 0) with
+  | some r => some s!"all concurrent calls returned ({summary}) and route {r} is published although its hostname is not registered to the client it names"
+  | none =>
+  match reqs.find? (fun q => code q = "ok" && !(owner q)) with
+  | some q => some s!"{q.op} succeeded for a hostname not registered to the caller"
+  | none =>
+  let addressed := (reqs.filter owner).map (·.h)
+  if routes.filter (fun r => !(addressed.contains (field r 0))) ≠ prevRoutes.filter (fun r => !(addressed.contains (field r 0))) then
+    some "routes of a hostname that none of its owners addressed changed" else
+  let touched := (reqs.filter owner).map fun q => s!"{q.tok}|{q.h}"
+  if owns.filter (fun o => !(touched.contains o)) ≠ prevOwns.filter (fun o => !(touched.contains o)) then
+    some "registrations that their owner did not address changed" else
+  if owns.any (fun o => !(prevOwns.contains o)) then some "a hostname got registered by publish/unpublish/release" else
+  match reqs.find? (fun q => q.op = "rel" && code q = "ok" &&
+      (owns.contains s!"{q.tok}|{q.h}" || routes.any (fun r => field r 0 = q.h && field r 2 = q.tok)
+        || (!q.cf && custom.any (fun c => field c 0 = q.h)))) with
+  | some q => some s!"release of {q.h} returned success and left its registration, routes or custom-hostname binding behind"
+  | none =>
+  -- a successful request that was the only successful one on its hostname behaves as if it ran alone
+  let lone (q : CReq) : Bool := code q = "ok" && !(reqs.any fun q' => q'.tid ≠ q.tid && q'.h = q.h && code q' = "ok")
+  match reqs.findSome? (fun q => if q.op = "pub" && lone q then pubSlots q.tok q.id q.h q.servers q.failing dest routes else none) with
+  | some why => some why
+  | none =>
+  match reqs.find? (fun q => q.op = "unpub" && lone q && routes.any (fun r => field r 0 = q.h)) with
+  | some _ => some "unpublish left routes behind"
+  | none => none
+
+def spawnReq (d : DSt) (q : CReq) (n : Nat) : DSt :=
+  let kind : Kind := if q.op = "pub" then .publish q.servers else if q.op = "unpub" then .unpublish else .release
+  let t := spawn kind (faultsOf q.failing q.cf) ⟨q.tok, n⟩ q.h
+  { d with toks := addU q.tok d.toks, hosts := addU q.h d.hosts,
+           pool := (d.pool.filter (fun x => x.1 ≠ q.tid)) ++ [(q.tid, t)], reqs := (d.reqs.filter (fun x => x.tid ≠ q.tid)) ++ [q] }
+
+def cstepLine (d : DSt) (tid : Nat) (call : KvCall) (rhs : String) : DSt × Verdict :=
+  match d.pool.find? (fun x => x.1 == tid) with
+  | none => (d, .bad "cs: unknown request")
+  | some (_, t) =>
+    let calls := nextCalls t
+    match calls.idxOf? call with
+    | none =>
+      (d, .diff s!"request {tid} called `{callStr call}`; the model expects one of [{", ".intercalate (calls.map callStr)}]")
+    | some j =>
+      let (st', t', res) := tstep d.st t j
+      let d' := { d with st := st', pool := d.pool.map fun x => if x.1 == tid then (tid, t') else x }
+      let m := s!"{(res.map resStr).getD "none"} {digest d'}"
+      if m ≠ rhs then (d', .diff m) else (d', .ok)
+
+def cendLine (d : DSt) (rhs : String) : DSt × Verdict :=
+  match rhs.splitOn " " with
+  | [outs, rts, own, cus] =>
+    let d' := { d with pool := [], reqs := [], prevRoutes := splitL rts, prevOwns := splitL own }
+    match cspec d.reqs d.st.dest d.prevRoutes d.prevOwns (splitL outs) (splitL rts) (splitL own) (splitL cus) with
+    | some why => (d', .spec why)
+    | none =>
+      let m := s!"{joinL (d.pool.map fun x => outStr x.1 x.2)} {digest d}"
+      if m ≠ rhs then (d', .diff m) else (d', .ok)
+  | _ => (d, .bad "cend rhs shape")
 
 def dstep (d : DSt) (toks : List String) (rhs : String) : DSt × Verdict :=
   match toks with
@@ -161,6 +281,23 @@ def dstep (d : DSt) (toks : List String) (rhs : String) : DSt × Verdict :=
       let (st', out) := Specter.C26.step d1.st (.release (faultsOf fs (cf == "1")) ⟨tok, n⟩ h)
       finish d1 st' out rhs toks (specCheck "rel" tok id h [] fs (cf == "1") d.st.dest d.prevRoutes d.prevOwns)
     | _, _ => (d, .bad "rel")
+  | ["creq", tid, "pub", tok, id, h, servers, failing] =>
+    match tid.toNat?, id.toNat?, parseServers servers, parseSlots failing with
+    | some i, some n, some ss, some fs => (spawnReq d ⟨i, "pub", tok, id, h, ss, fs, false⟩ n, .ok)
+    | _, _, _, _ => (d, .bad "creq pub")
+  | ["creq", tid, "unpub", tok, id, h, failing] =>
+    match tid.toNat?, id.toNat?, parseSlots failing with
+    | some i, some n, some fs => (spawnReq d ⟨i, "unpub", tok, id, h, [], fs, false⟩ n, .ok)
+    | _, _, _ => (d, .bad "creq unpub")
+  | ["creq", tid, "rel", tok, id, h, failing, cf] =>
+    match tid.toNat?, id.toNat?, parseSlots failing with
+    | some i, some n, some fs => (spawnReq d ⟨i, "rel", tok, id, h, [], fs, cf == "1"⟩ n, .ok)
+    | _, _, _ => (d, .bad "creq rel")
+  | "cs" :: tid :: call =>
+    match tid.toNat?, parseCall call with
+    | some i, some c => cstepLine d i c rhs
+    | _, _ => (d, .diff s!"request {tid} issued a KV call outside the model: {" ".intercalate call}")
+  | ["cend"] => cendLine d rhs
   | _ => (d, .bad "unknown op")
 
 def main : IO Unit := runLoop dinit dstep
